@@ -206,7 +206,7 @@ type stmt =
 | Raise
 and handlers =
 | HNil
-| HCons of nref list * bool * nat * nat * stmt * handlers
+| HCons of bool * nat * nat * stmt * handlers
 
 type lstat =
 | LRef of nat * nat
